@@ -44,6 +44,9 @@ type vWorld struct {
 	n   int // tracked handles (alive or dead)
 	px  [4]uint32
 	obs []*Observer
+	// standing registered filters of the shape (the cache is maintained by every operation and
+	// characterised exactly by invCache); their ghost count for the statistics laws
+	nStanding int
 }
 
 func vIsRel(c int) bool { return c == cR1 || c == cR2 }
@@ -563,4 +566,19 @@ func (W *vWorld) checkAll(tag string) {
 		vcheck(tag+"/all-lock-bits-returned", lk.locks.bits == 0 && lk.bitPool.available == lk.bitPool.length)
 	}
 	vcheck(tag+"/lock-state", W.w.IsLocked() == vLocked)
+}
+
+// standingFilters registers cached filters that stay registered for the rest of the harness:
+// every structural operation of every step harness then also maintains the filter cache
+// (tables added / freed / recycled), which invCache characterises exactly.
+func (W *vWorld) standingFilters(rel bool) {
+	NewFilter1[vPos](W.w).Register()
+	NewFilter2[vPos, vVel](W.w).Without(C[vTag]()).Register()
+	W.nStanding = 2
+	if rel {
+		NewFilter1[vChild](W.w).Register()
+		NewFilter2[vChild, vChild2](W.w).Relations(RelIdx(0, W.e[0].h)).Register() // fixed target p0 on R1 of the two-relation archetypes
+		NewFilter1[vChild2](W.w).Relations(RelIdx(0, W.e[1].h)).Register()
+		W.nStanding = 5
+	}
 }
